@@ -32,7 +32,9 @@ class PendingExpander(Pending):
         self.validator = validator
 
     def validate(self, tokens, wanted_key):
-        for key, value in self.validator(tokens):
+        # Use tuple() to consume generators now and catch any error, as invalid
+        # values make the whole declaration invalid.
+        for key, value in tuple(self.validator(tokens)):
             if key.startswith('-'):
                 key = f'{self.validator.keywords["name"]}{key}'
             if key == wanted_key:
